@@ -2,12 +2,14 @@ module github.com/nsqio/nsq/verifharness
 
 go 1.17
 
-require github.com/nsqio/nsq v0.0.0
+require (
+	github.com/golang/snappy v0.0.4
+	github.com/nsqio/nsq v0.0.0
+)
 
 require (
 	github.com/blang/semver v3.5.1+incompatible // indirect
 	github.com/bmizerany/perks v0.0.0-20141205001514-d9a9656a3a4b // indirect
-	github.com/golang/snappy v0.0.4 // indirect
 	github.com/julienschmidt/httprouter v1.3.0 // indirect
 	github.com/nsqio/go-diskqueue v1.1.0 // indirect
 	github.com/nsqio/go-nsq v1.1.0 // indirect
